@@ -85,6 +85,16 @@ Theorem C17_min_first : forall h c chs j,
 Proof. exact min_first. Qed.
 Print Assumptions C17_min_first.
 
+(* ... read as the two rules a client relies on: priority first (numerically smaller wins), FIFO (arrival serial)
+   within one priority. *)
+Theorem C17_priority_then_fifo : forall h c chs j,
+  let s := run h init in
+  In (ODeliver c chs j) (snd (step s (StartPull c chs))) ->
+  forall k q p x, q_get (s_queues s) k = Some q -> (chs = [] \/ mem k chs = true) -> In (p, x) q ->
+  is_done (s_jobs s) x = false -> j_prio j <= p /\ (p = j_prio j -> j_serial j <= x).
+Proof. exact min_first_prio_fifo. Qed.
+Print Assumptions C17_priority_then_fifo.
+
 (* ... and a pull blocks only when every job queued on the requested channels is finished (stale heap entries) *)
 Theorem C17_pull_blocks_only_when_nothing_is_queued : forall h c chs,
   let s := run h init in
